@@ -2,7 +2,7 @@
 # every seeded patch (or its patch-rebased.diff) and every own mutation must still apply to /repo HEAD
 cd /verif; W=/tmp/applychk.$$; git -C /repo worktree add --detach "$W" HEAD >/dev/null 2>&1; trap 'git -C /repo worktree remove --force "$W" >/dev/null 2>&1' EXIT
 bad=0
-for dir in seeded seeded2 seeded3; do for d in $dir/*/; do id=$(basename $d); p="$d/patch.diff"; [ -f "$d/patch-rebased.diff" ] && p="$d/patch-rebased.diff"
+for dir in seeded seeded2 seeded3 seeded4; do for d in $dir/*/; do id=$(basename $d); p="$d/patch.diff"; [ -f "$d/patch-rebased.diff" ] && p="$d/patch-rebased.diff"
   git -C "$W" apply --check "/verif/$p" 2>/dev/null || { echo "DOES NOT APPLY: $dir/$id"; bad=1; }; done; done
 python3 - "$W" <<'PY' || bad=1
 import json,sys
